@@ -87,6 +87,35 @@ pub enum EvaluateTypeError {
 }
 
 impl Expression {
+    /// Check if an lvalue is a part of an object that can not be written
+    ///
+    /// The type of a member, element or component does not carry the const of the object it is in
+    pub fn is_const_path(&self, module: &Module) -> bool {
+        let inner = match self {
+            Expression::ConstantVariable(_) => return true,
+            Expression::StructMember(inner, _, _)
+            | Expression::Swizzle(inner, _)
+            | Expression::MatrixSwizzle(inner, _)
+            | Expression::ArraySubscript(inner, _) => inner,
+            _ => return false,
+        };
+        let inner_ty = match inner.get_type(module) {
+            Ok(ty) => ty.0,
+            Err(_) => return false,
+        };
+        let (inner_ty_nomod, inner_mod) = module.type_registry.extract_modifier(inner_ty);
+        if let Expression::ArraySubscript(_, _) = self
+            && module
+                .type_registry
+                .get_type_layer(inner_ty_nomod)
+                .is_object()
+        {
+            // Elements of resources have the const of the resource type on their own type
+            return false;
+        }
+        inner_mod.is_const || inner.is_const_path(module)
+    }
+
     /// Find the type of an expression
     pub fn get_type(&self, module: &Module) -> Result<ExpressionType, EvaluateTypeError> {
         match *self {
